@@ -99,20 +99,28 @@ func c19Value(depth int, name string, cnt *c19Counts) interface{} {
 		}
 		return c19Leaves[k]
 	case 1:
-		n := verifrt.Choice("len_"+name, 3)
+		n := verifrt.Choice("len_"+name, c19Width(depth))
 		arr := make([]interface{}, 0, n)
 		for i := 0; i < n; i++ {
 			arr = append(arr, c19Value(depth-1, name+"a"+string(rune('0'+i)), cnt))
 		}
 		return arr
 	default:
-		n := verifrt.Choice("len_"+name, 3)
+		n := verifrt.Choice("len_"+name, c19Width(depth))
 		m := map[string]interface{}{}
 		for i := 0; i < n; i++ {
 			m["k"+string(rune('0'+i))] = c19Value(depth-1, name+"m"+string(rune('0'+i)), cnt)
 		}
 		return m
 	}
+}
+
+// c19Width: containers hold 0-2 values; a container three levels above the leaves holds at most one (bounds the tree count).
+func c19Width(depth int) int {
+	if depth >= 3 {
+		return 2
+	}
+	return 3
 }
 
 func c19JSON(depth int) {
